@@ -34,6 +34,7 @@ type Verifier struct {
 	loadS        float64
 	repo         string
 	verifDir     string
+	infos        map[string]*types.Info // by package path (repository packages)
 }
 
 var repoPkgs = []string{".", "./kv", "./kv/crdt", "./kv/internal/crdt", "./sqlite", "./internal", "./writetime"}
@@ -61,6 +62,10 @@ func loadVerifier(repo, verifDir string) (*Verifier, error) {
 	v := &Verifier{prog: prog, pkgs: pkgs, spkgs: map[string]*ssa.Package{}, tpkgs: map[string]*types.Package{},
 		db: newDB(), tags: map[string]int{}, ghostTypes: map[string]types.Type{}, errTypes: map[string]types.Type{},
 		repo: repo, verifDir: verifDir}
+	v.infos = map[string]*types.Info{}
+	for _, p := range pkgs {
+		v.infos[p.PkgPath] = p.TypesInfo
+	}
 	for _, sp := range prog.AllPackages() {
 		v.spkgs[sp.Pkg.Path()] = sp
 		v.tpkgs[sp.Pkg.Path()] = sp.Pkg
